@@ -100,6 +100,15 @@ def build(app):
         up = files.get('up')
         note('up_name', up.raw_filename if up is not None else None)
         note('up_data', up.file.read() if up is not None else None)
+        if up is not None:
+            # the part's own headers, as the upload object exposes them
+            hv = {}
+            for hk in sorted(up.headers.keys()):
+                v = up.headers[hk]
+                hv[hk] = getattr(v, 'value', v)
+            note('up_headers', hv)
+            ct = up.content_type
+            note('up_ctype', getattr(ct, 'value', ct))
         note('form_t', rq.forms.get('t'))
         write_some(app, m, 201)
         read_back(app, 'w1')
